@@ -147,6 +147,25 @@ func After(delta int, name string, fn func()) {
 	b.mu.Unlock()
 }
 
+// SpawnedParked reports whether any goroutine that is not a client (i.e. one
+// that the code under test spawned) is parked at a hook. For use inside
+// BubbleConfig.Guards only: the scheduler calls guards with its lock held.
+// Because goroutines run one at a time, a spawned goroutine that is still alive
+// is either parked or blocked on something only another such goroutine (or a
+// client) can release.
+func SpawnedParked() bool {
+	b := current
+	if b == nil {
+		return false
+	}
+	for _, g := range b.all {
+		if g.parked && g.Name != g.Client {
+			return true
+		}
+	}
+	return false
+}
+
 // Yield is a harness-level hook point (same semantics as the hooks in /repo).
 func Yield(point, id string) {
 	if b := current; b != nil {
